@@ -95,6 +95,16 @@ def eval_generated(case):
     inp = h if form == "str" else h.encode("ascii") if h.isascii() else None
     if inp is None:
         return []
+    # the update check reads the same settings out of the string: it must answer for both input forms, alike
+    if hasattr(H, "needs_update"):
+        try:
+            a, b = Hc.needs_update(h), Hc.needs_update(inp)
+            if bool(a) != bool(b):
+                out.append((key + f"needs_update:differs:{form}", f"needs_update({h!r}) = {a!r} but needs_update({inp!r}) = {b!r}"))
+            elif a:
+                out.append((key + "needs_update:own_fresh_hash", f"{name}.using(**{settings!r}).needs_update() is True for the hash it has just made: {h!r}"))
+        except Exception as e:  # noqa: BLE001
+            out.append((key + f"needs_update_raises:{type(e).__name__}:{form}", f"needs_update({inp!r}) raised {e!r} for a hash the hasher just made"))
     if is_wrapper(name):
         W = H.wrapped
         try:
